@@ -128,7 +128,7 @@ let run_hist_gen (stepf : string -> schema -> heap -> op -> heap * pval) (laws :
       let o = parse_op outs !n s in
       let h', r = stepf s sch !h o in
       if laws then begin
-      refine_law sch !h o h' r;
+      (let hm, rm = step sch !h o in refine_law sch !h o hm rm);   (* (about Reflect.step, whatever stepf is) *)
       (* the statements of Model/ReflectProg.v on this step: the canonical method bodies (what the eight templates emit for the
          schema), interpreted, are Reflect.step; the heap invariant they assume is kept *)
       Driver.law "C08.reflect_prog_correct" (reflect_prog_law sch !h o);
